@@ -26,7 +26,7 @@ def scenarios(tier):
     base = dict(prop="C06", monitors=("c06",), regions=["R"], emax=1, key_depth=False)
     scripts = [("none", None, None),
                ("one", "M300 S1 ; c\n\n", "M400\r\n"),
-               ("two", "M300 S1\nM300 P5 ; x\r\n", "M300 S2 ; bye\n\nM400\n")]
+               ("two", "M300 S1\nSET_PIN PIN=x VALUE=1 ; klipper\r\n", "M300 S2 ; bye\n\n@resume now\nM400\n")]
     out = []
     for name, en, ex in scripts:
         drop = {"none": (("RAW", "M106 S0"), ("RAW", "M204 S"), ("RAW", "M205 X5"), ("TRAVEL", "I2")),
@@ -36,6 +36,14 @@ def scenarios(tier):
         menu = MENU if not q else [e for e in MENU if e not in drop]
         out.append(Scenario("c06-scripts-" + name, World, dict(base, enter=en, exit=ex), menu,
                             max_states=60000 if q else 3000000))
+    full = (("G4", "exclude"), ("M106", "first"), ("M117", "last"), ("M204", "merge"), ("M205", "merge"))
+    out.append(Scenario("c06-codes-reconfigured", World, dict(base, exit="M400\n"),
+                        [("TRAVEL", "I1"), ("TRAVEL", "O2"), ("RAW", "G4 P100"), ("RAW", "M117 a"), ("RAW", "M204 S500"),
+                         ("RAW", "M106 S255"), ("SETEXT", full), ("SETEXT", (("M204", "merge"),)),
+                         ("SETEXT", (("M117", "first"), ("M204", "last"))), ("NEWPRINT",)],
+                        max_states=60000 if q else 3000000,
+                        note="the list of extended codes is replaced through the settings between episodes: removed "
+                             "entries must stop being withheld, changed modes must apply"))
     out.append(Scenario("c06-region-deleted", World,
                         dict(base, shrink=True, enter="M300 S1\n", exit="M400\n", maxregions=1),
                         [("TRAVEL", "I1"), ("TRAVEL", "O2"), ("TRAVEL", "I2"), ("RAW", "M117 a"), ("RAW", "M204 S500"),
